@@ -68,6 +68,9 @@ THEOREMS['C03'] = ['FB.C03_impl_build', 'FB.C03_impl_buildGo', 'FB.C03_impl_run_
                    'FB.MakeRoom.makeRoom_moved', 'FB.MakeRoom.makeRoom_keeps_virtual', 'FB.Rollback.rollBack_restores_files']
 THEOREMS['C16'] = ['FB.Codec.decode_encode', 'FB.Codec.decodeOps_encodeOps', 'FB.Codec.read_write', 'FB.Codec.replayOp_strip',
                    'FB.Codec.replayOps_strip', 'FB.Codec.isEqual_textRT', 'FB.Codec.textRT_of_wf']
+THEOREMS['C11'] = ['FB.Heap.C11_records_immutable', 'FB.Heap.C11_records_immutable_from_init', 'FB.Heap.C11_served_value', 'FB.Heap.inv_run', 'FB.Heap.inv_step',
+                   'FB.Heap.read_frame', 'FB.Heap.copy_faithful', 'FB.Heap.read_alloc', 'FB.Heap.alloc_post', 'FB.Heap.needs_argsIn', 'FB.Heap.needs_argsOut', 'FB.Heap.needs_retIn',
+                   'FB.Heap.needs_retOut', 'FB.Heap.needs_retOut_cached', 'FB.Heap.needs_queryOut']
 THEOREMS['C10'] = ['FB.C10_success', 'FB.C10_failure', 'FB.C10_setup', 'FB.MakeDirs.makeDirs_error', 'FB.MakeDirs.loop_error']
 THEOREMS['C12'] = ['FB.C12_preClean_frame', 'FB.C12_clean_noop_without_cache', 'FB.C12_clean_idempotent',
                    'FB.C12_impl_clean_is_preClean', 'FB.BuildDirs.preClean_gone_iff', 'FB.BuildDirs.preClean_isFile_iff',
@@ -1270,6 +1273,16 @@ def check_C11(tier):
     rep = core.Report('C11', tier)
     gate = core.proof_gate(THEOREMS['C11'], tier)
     ds = measure()
+    # the heap model: real builds with in-place mutation at every edge, replayed on FB.Heap; records located on the real heap
+    from . import heapcheck
+    hp = heapcheck.run(tier, rep)
+    h_oracle = [q for q in hp if q['cat'] == 'oracle']
+    h_tie = [q for q in hp if q['cat'] == 'tie']
+    rep.count('correspondence_disagreements_heap', len(h_tie))
+    for q in h_oracle[:2]:
+        rep.violation('heap', {'property': 'C11', 'kind': 'failing-input', 'what': q['what'], 'heap_case': q['case'], 'build': q.get('build'),
+                               'detail': q.get('detail'), 'how_to_replay': './check C11 --replay <this file>'},
+                      note='%s (build %s): %s' % (q['what'], q.get('build'), json.dumps(q.get('detail'))[:200]))
     prof = dict(RICH_ARGS, rets=['acc', 'acc', 'const', 'const'], p_q=0.35)
     cases = gen.gen_scenario_cases(core.seed() * 31 + 11, budget(tier, 20, 500), ds)
     cases += random_cases(tier, 500, 25000, 11, prof=prof, dirsize=ds, p_fail=0.1, p_clean=0.0, min_builds=3, max_builds=5)
@@ -1303,6 +1316,13 @@ def check_C11(tier):
         if [d for d in dsx if d['cat'] in ('impl_res', 'impl_inv', 'impl_cache')]:
             tie += 1
     rep.count('mutating_run_vs_model_disagreements', tie)
+    if h_tie and not rep.violations:
+        # FB.Heap no longer describes the code and neither the records on the real heap nor the mutating histories show a failing input
+        q = h_tie[0]
+        rep.violation('heap_tie', {'property': 'C11', 'kind': 'correspondence-broken',
+                                   'no_longer_checks': 'FB.Heap (C11_records_immutable, inv_run: separation of records from user-held structures) describes the copies file_builder.py makes: ' + q['what'],
+                                   'heap_case': q['case'], 'build': q.get('build'), 'model': q.get('model'), 'real': q.get('real')},
+                      note=q['what'][:200], no_input=True)
     if tie and not rep.violations:
         rep.violation('tie', {'property': 'C11', 'kind': 'correspondence-broken',
                               'no_longer_checks': 'the mutating run of the real code against the value-semantics model FB.Impl'},
@@ -1326,6 +1346,17 @@ CHECKS = {'TIE': check_TIE, 'C11': check_C11, 'C14': check_C14, 'C09': check_C09
 def replay(prop, path):
     with open(path) as fh:
         payload = json.load(fh)
+    if 'heap_case' in payload and prop == 'C11':
+        from . import heapcheck
+        builds = heapcheck.real_run(payload['heap_case'])
+        bad = [(i, b['changed'][0]) for i, b in enumerate(builds) if b['changed']]
+        shared = [(i, b['shared']) for i, b in enumerate(builds) if b['shared']]
+        if bad or shared:
+            print('VIOLATION property=C11 replay=%s' % path)
+            print('  ' + json.dumps({'records_changed': bad[:2], 'records_shared_with_user_code': shared[:2]})[:400])
+            return 1
+        print('replay: the recorded input no longer fails')
+        return 0
     if 'case' in payload and prop == 'C11':
         fails = alias_failing(payload['case'])
         if fails:
